@@ -37,11 +37,12 @@ type Verifier struct {
 	GlobalsUsed map[string]bool
 	autoOff     map[string]bool
 	SweepSet    map[string]bool
+	TypeInvUsed map[string]bool
 }
 
 func newVerifier(P *Program, C *Contracts) *Verifier {
 	return &Verifier{P: P, C: C, ST: newSortTable(), Assumed: map[string]bool{}, ExternU: map[string]bool{},
-		globals: map[*ssa.Global]string{}, strConst: map[string]string{"": "str_empty"}, ufDecl: map[string]bool{}, GlobalsUsed: map[string]bool{}, autoOff: map[string]bool{}}
+		globals: map[*ssa.Global]string{}, strConst: map[string]string{"": "str_empty"}, ufDecl: map[string]bool{}, GlobalsUsed: map[string]bool{}, autoOff: map[string]bool{}, TypeInvUsed: map[string]bool{}}
 }
 
 type Obligation struct {
@@ -259,6 +260,10 @@ type fnEnc struct {
 	allocNames map[string]bool
 	allocOrder map[string]int
 	declOrder  map[string]int
+	invTracked []tval // values for which a type invariant was assumed (re-assumed after a havoc)
+	invSeen    map[string]bool
+	noTypeInv  bool
+	constFV    map[*ssa.FreeVar]string
 }
 
 type inputVar struct {
@@ -402,6 +407,9 @@ func (e *fnEnc) havocAll(st *state) {
 	e.assume(st, fmt.Sprintf("(>= %s %s)", nn, st.next))
 	st.next = nn
 	e.assumeGlobalFacts(st)
+	for _, tv := range e.invTracked {
+		e.assumeTypeInv(st, tv.term, tv.typ, false)
+	}
 }
 
 // ---------------------------------------------------------------------------
@@ -465,6 +473,14 @@ func (e *fnEnc) oblige(st *state, kind, anchor string, pos token.Pos, cond strin
 		o.Result, o.Solver = "unsat", "trivial"
 	}
 	e.obls = append(e.obls, o)
+	switch kind {
+	case "nil", "bounds", "slice", "div0", "shift", "assert-type", "conv-len", "make-len", "nilmap", "call-pre", "callback-guarantee":
+		// execution continues past a run-time check only if it passed (and past a call only
+		// if its precondition held: a violation is reported once, here)
+		if cond != "true" && cond != "false" {
+			e.assume(st, foldTerm(cond))
+		}
+	}
 	return o
 }
 
@@ -554,7 +570,7 @@ func (e *fnEnc) topo() []*ssa.BasicBlock {
 func (V *Verifier) encodeFunction(fn *ssa.Function, fc *FuncContract) (enc *fnEnc) {
 	e := &fnEnc{V: V, fn: fn, fc: fc, lazySet: map[string]bool{}, vals: map[ssa.Value]string{}, tuples: map[ssa.Value][]string{},
 		out: map[*ssa.BasicBlock]*state{}, edgeCond: map[[2]int]string{}, anchors: map[string]int{}, params: map[string]tval{},
-		closures: map[ssa.Value]*ssa.MakeClosure{}, rangeSrc: map[ssa.Value]ssa.Value{}, deferSt: map[*ssa.Defer]string{}, specConsts: map[string]string{}, winOf: map[ssa.Value]string{}, storeInfo: map[string]storeRec{}, allocNames: map[string]bool{}, allocOrder: map[string]int{}, declOrder: map[string]int{}}
+		closures: map[ssa.Value]*ssa.MakeClosure{}, rangeSrc: map[ssa.Value]ssa.Value{}, deferSt: map[*ssa.Defer]string{}, specConsts: map[string]string{}, winOf: map[ssa.Value]string{}, storeInfo: map[string]storeRec{}, allocNames: map[string]bool{}, allocOrder: map[string]int{}, declOrder: map[string]int{}, invSeen: map[string]bool{}, constFV: map[*ssa.FreeVar]string{}}
 	enc = e
 	sliceDefs = map[string][4]string{}
 	defer func() {
@@ -593,6 +609,15 @@ func (V *Verifier) encodeFunction(fn *ssa.Function, fc *FuncContract) (enc *fnEn
 		}
 	}
 	e.assumeGlobalFacts(st)
+	// default contract of a swept method: the receiver is not nil (checked at call sites
+	// like any precondition)
+	if fc == nil {
+		for _, p := range fn.Params {
+			if defaultNonNil(p.Type()) {
+				e.assume(st, not(eq(e.vals[p], "null")))
+			}
+		}
+	}
 	// requires
 	if fc != nil {
 		env := e.contractEnv(st, st, nil)
@@ -645,6 +670,7 @@ func (e *fnEnc) assumeWF(st *state, term string, t types.Type) {
 		e.assume(st, and(app("slice_wf", term), fmt.Sprintf("(< (rootn (s_base %s)) %s)", term, st.next)))
 	case *types.Pointer, *types.Map, *types.Chan, *types.Signature:
 		e.assume(st, and(app("ref_wf", term), fmt.Sprintf("(< (rootn %s) %s)", term, st.next)))
+		e.assumeTypeInv(st, term, t, true)
 	case *types.Interface:
 		e.assume(st, and(app("ref_wf", app("i_val", term)), fmt.Sprintf("(< (rootn (i_val %s)) %s)", term, st.next), fmt.Sprintf("(>= (i_tag %s) 0)", term),
 			fmt.Sprintf("(=> (= (i_tag %s) 0) (= (i_val %s) null))", term, term)))
@@ -1181,4 +1207,133 @@ func (e *fnEnc) modifiedTypes(c *ssa.CallCommon) (ts []types.Type, ok bool) {
 		}
 	}
 	return ts, true
+}
+
+// assumeTypeInv assumes the declared invariant of a pointer type for a value that reaches
+// the function from outside (DESIGN: object invariants over fields that are immutable after
+// construction; the immutability is checked syntactically, the establishment by the
+// constructor is an assumption listed in the evidence).
+func (e *fnEnc) assumeTypeInv(st *state, term string, t types.Type, track bool) {
+	if len(e.V.C.TypeInvs) == 0 || e.noTypeInv {
+		return
+	}
+	pt, ok := t.(*types.Pointer)
+	if !ok {
+		return
+	}
+	named, ok := pt.Elem().(*types.Named)
+	if !ok || named.Obj().Pkg() == nil {
+		return
+	}
+	for _, ti := range e.V.C.TypeInvs {
+		if ti.Pkg != named.Obj().Pkg().Path() || strings.TrimPrefix(ti.Type, "*") != named.Obj().Name() {
+			continue
+		}
+		if e.isConstructorOf(named) {
+			continue
+		}
+		func() {
+			defer func() {
+				if r := recover(); r != nil {
+					e.structureError(fmt.Sprintf("typeinv [%s]: %v", ti.Clause.Label, r))
+				}
+			}()
+			en := &env{e: e, st: st, old: st, names: map[string]tval{"self": {term: term, typ: t}}, pkg: named.Obj().Pkg()}
+			fact := en.evalBool(ti.Clause.Expr)
+			e.assume(st, implies(not(eq(term, "null")), fact))
+			e.V.TypeInvUsed[ti.Type+" ["+ti.Clause.Label+"] "+ti.Clause.Src] = true
+		}()
+		if track && !e.invSeen[term] {
+			e.invSeen[term] = true
+			e.invTracked = append(e.invTracked, tval{term: term, typ: t})
+		}
+	}
+}
+
+// isConstructorOf: the function being verified is a declared constructor of the type (it
+// establishes the invariant instead of assuming it).
+func (e *fnEnc) isConstructorOf(named *types.Named) bool {
+	for _, im := range e.V.C.Immutables {
+		if im.Pkg == named.Obj().Pkg().Path() && im.Struct == named.Obj().Name() {
+			for _, c := range im.Constructors {
+				if c == funcKey(e.fn) || (e.fn.Parent() != nil && c == funcKey(e.fn.Parent())) {
+					return true
+				}
+			}
+		}
+	}
+	return false
+}
+
+// checkImmutables verifies over the whole loaded program that the fields declared
+// immutable are assigned only inside the declared constructors.
+func (V *Verifier) checkImmutables() []string {
+	var errs []string
+	for _, im := range V.C.Immutables {
+		fields := map[string]bool{}
+		all := false
+		for _, f := range im.Fields {
+			if f == "*" {
+				all = true
+			}
+			fields[f] = true
+		}
+		ctors := map[string]bool{}
+		for _, c := range im.Constructors {
+			ctors[c] = true
+		}
+		for key, fn := range V.P.funcs {
+			if fn.Pkg == nil && fn.Parent() == nil {
+				continue
+			}
+			top := fn
+			for top.Parent() != nil {
+				top = top.Parent()
+			}
+			if ctors[funcKey(top)] || ctors[key] {
+				continue
+			}
+			for _, b := range fn.Blocks {
+				for _, ins := range b.Instrs {
+					st, ok := ins.(*ssa.Store)
+					if !ok {
+						continue
+					}
+					fa, ok := st.Addr.(*ssa.FieldAddr)
+					if !ok {
+						continue
+					}
+					pt, ok := fa.X.Type().Underlying().(*types.Pointer)
+					if !ok {
+						continue
+					}
+					named, ok := pt.Elem().(*types.Named)
+					if !ok || named.Obj().Pkg() == nil || named.Obj().Pkg().Path() != im.Pkg || named.Obj().Name() != im.Struct {
+						continue
+					}
+					fname := named.Underlying().(*types.Struct).Field(fa.Field).Name()
+					if all || fields[fname] {
+						// a store into a freshly allocated object of that type inside the same
+						// function (composite literal) is construction too
+						if _, isAlloc := fa.X.(*ssa.Alloc); isAlloc {
+							continue
+						}
+						errs = append(errs, fmt.Sprintf("structure:immutable %s.%s is assigned in %s (not a declared constructor)", im.Struct, fname, key))
+					}
+				}
+			}
+		}
+	}
+	sort.Strings(errs)
+	return errs
+}
+
+// defaultNonNil: the default contract of a swept function requires its pointer- and
+// map-typed parameters (the receiver included) to be non-nil.
+func defaultNonNil(t types.Type) bool {
+	switch t.Underlying().(type) {
+	case *types.Pointer, *types.Map:
+		return true
+	}
+	return false
 }
